@@ -425,7 +425,8 @@ func prime() {
 		})
 	}
 	// which family comes last decides what a pool hands to the measured call
-	switch (n / 3) % 4 {
+	// (a period of five: callers that run every case twice keep a fixed parity of n/3, and must still meet every order)
+	switch (n / 3) % 5 {
 	case 0:
 		withFns()
 		helpers()
@@ -434,7 +435,7 @@ func prime() {
 		refused()
 		helpers()
 		withFns()
-	case 2:
+	case 2, 4:
 		refused()
 		withFns()
 		helpers()
